@@ -7,6 +7,10 @@ import (
 
 // parse and return tag and length, also the length of two parts
 func parseTagAndLength(bytes []byte) (r tagAndLen, off int, e error) {
+	if len(bytes) == 0 {
+		e = fmt.Errorf("no data to parse tag and length from")
+		return r, off, e
+	}
 	off++
 	r.class = int(bytes[0] >> 6)
 	r.constructed = (bytes[0] & 0x20) != 0
